@@ -249,8 +249,8 @@ def worker(arg):
 
 def check(tier, seed):
     t = pc.trees("plain", "san")
-    n = 900 if tier == "quick" else 15000
-    nsan = 50 if tier == "quick" else 1000
+    n = 900 if tier == "quick" else 4500
+    nsan = 50 if tier == "quick" else 250
     res = Result("exploration")
     res.rule = RULE
     base = seed * 1000000 + (0 if tier == "quick" else 100000) + 170000
